@@ -172,6 +172,33 @@ def _i2b_folded(ctx):
     return None if sided else problems
 
 
+@_ioe
+def _to_bytes_folded(ctx):
+    """Fold util.to_bytes on probe values: an immutable `bytes` object may come back as itself; a mutable octet buffer (bytearray, memoryview) comes back
+    as a NEW `bytes` object with the same octets.  -> deviations, or None when inconclusive."""
+    from ..fold import FuncVal, FoldRaise, is_unknown
+    eng = ctx.eng
+    F = eng.folder
+    fn = eng.prog.func("util:to_bytes")
+    problems: List[str] = []
+    F.start_trace()
+    for p in (b"", b"ab", bytearray(b"ab"), bytearray(), memoryview(b"ab"), memoryview(bytearray(b"cd")), "ab", 12):
+        try:
+            r = F.call(FuncVal(fn, None, None), [p], {})
+        except FoldRaise:
+            if isinstance(p, (bytearray, memoryview)):
+                continue  # a refusal shares nothing
+            return None
+        if is_unknown(r):
+            return None
+        if isinstance(p, (bytearray, memoryview)):
+            if r is p or type(r) is not bytes:
+                problems.append(f"to_bytes({type(p).__name__}) hands back {'its argument' if r is p else 'a ' + type(r).__name__}")
+    if F.one_sided():
+        return None
+    return sorted(set(problems))
+
+
 def r19_13(ctx) -> None:
     """R19.13  `to_bytes` hands back its argument itself only when that is an (immutable) `bytes` object: everything else - text, numbers, and mutable
     octet buffers such as `bytearray` / `memoryview` - becomes a new `bytes` value.  Key material, header segments and thumbprint inputs that went through
@@ -179,6 +206,13 @@ def r19_13(ctx) -> None:
     eng = ctx.eng
     fn = eng.prog.func("util:to_bytes")
     p_ = fn.pos_params[0]
+    fi = _to_bytes_folded(ctx)
+    if fi is not None:
+        ctx.check(not fi, "R19.13", fn, fn.node, f"{fn.short} :: returns its argument", "to_bytes returns its argument itself for something that is not an immutable `bytes` object "
+                  "(a bytearray handed in stays shared with the caller: what was imported can change afterwards): " + "; ".join(fi[:2]), "return x only under isinstance(x, bytes); bytes(x) otherwise",
+                  construct="to_bytes identity return")
+        ctx.count("R19.13", 1, 1, "returns of the argument itself in to_bytes")
+        return
     cfg = cfg_of(fn)
     n = 0
     for r in cfg.returns():
